@@ -449,7 +449,14 @@ func loadYamlModel(ctx context.Context, config types.ConfigDetails, opts *Option
 			return nil, err
 		}
 	}
-	ResolveEnvironment(dict, config.Environment)
+	if len(included) == 0 {
+		ResolveEnvironment(dict, config.Environment)
+	} else {
+		// An included model is validated again as part of the including model, which resolves configs
+		// itself: a `content` added here next to `environment` would be mistaken for a second source.
+		resolveServicesEnvironment(dict, config.Environment)
+		resolveSecretsEnvironment(dict, config.Environment)
+	}
 
 	return dict, nil
 }
